@@ -64,6 +64,8 @@ class Interp:
         self.iter_sites = {}
         self.elem_of = {}
         self.forall_established = []
+        self.elem_idx_term = {}
+        self.loop_reads = []  # counting loops: start value and element offsets read, per sequence (coverage rules)
 
     # ------------------------------------------------------------------ types
     def int_range(self, t):
@@ -374,6 +376,8 @@ class Interp:
         if elem_of is not None:
             for fpath, s in m.items():
                 self.elem_of[s] = elem_of + (fpath,)
+                if not isinstance(elem_of[1], tuple):
+                    self.elem_idx_term[s] = S.term(elem_of[1])  # the index as known when the element was read
         if prov and self.hooks:
             for h in self.hooks:
                 h("elem_read", interp=self, prov=prov, off=off, value=out, state=S)
